@@ -137,6 +137,58 @@ func (vc *VC) callModelled(st *State, o *types.Func, recv *Val, argv []Val, c *a
 		}
 		vc.putBytes(st, dst, argv[0], v.S, n, c)
 		return nil, true
+	case "sort.Slice":
+		trusted()
+		// sort.Slice(x, less): x becomes a permutation of itself, ordered by the relation named in the closure's contract
+		if !vc.isLvalue(c.Args[0]) {
+			return nil, false
+		}
+		sv := vc.eval(st, c.Args[0])
+		sl, ok := sv.Ty.Underlying().(*types.Slice)
+		if !ok {
+			return nil, false
+		}
+		lit, _ := c.Args[1].(*ast.FuncLit)
+		var rel string
+		if lit != nil {
+			for k, fi := range vc.eng.funcs {
+				if fi.Lit == lit {
+					if ct := vc.eng.specs.Contracts[k]; ct != nil {
+						rel = ct.Options["less-relation"]
+						vc.assumedContracts["closure "+k+" as sort order (verified separately)"] = true
+					}
+				}
+			}
+		}
+		es := vc.sortOf(sl.Elem())
+		arr, ln, org := vc.sliceParts(sv)
+		na := vc.fresh("sorted", "(Array Int "+es+")")
+		perm := vc.fresh("perm", "(Array Int Int)")
+		inv := vc.fresh("pinv", "(Array Int Int)")
+		vc.assume(st, fmt.Sprintf("(forall ((k Int)) (! (=> (and (<= 0 k) (< k %s)) (and (<= 0 (select %s k)) (< (select %s k) %s) (= (select %s k) (select %s (select %s k))) (= (select %s (select %s k)) k))) :pattern ((select %s k)) :pattern ((select %s k))))",
+			ln, perm, perm, ln, na, arr, perm, inv, perm, na, perm))
+		vc.assume(st, fmt.Sprintf("(forall ((k Int)) (! (=> (and (<= 0 k) (< k %s)) (and (<= 0 (select %s k)) (< (select %s k) %s) (= (select %s (select %s k)) k))) :pattern ((select %s k)) :pattern ((select %s k))))",
+			ln, inv, inv, ln, perm, inv, inv, arr))
+		nv := Val{S: fmt.Sprintf("(mk_%s %s %s %s)", sv.Sort, na, ln, org), Ty: sv.Ty, Sort: sv.Sort}
+		// consequence of being a permutation: pairwise distinctness is preserved
+		vc.assume(st, fmt.Sprintf("(=> (forall ((i Int) (j Int)) (=> (and (<= 0 i) (< i j) (< j %s)) (not (= (select %s i) (select %s j))))) (forall ((i Int) (j Int)) (! (=> (and (<= 0 i) (< i j) (< j %s)) (not (= (select %s i) (select %s j)))) :pattern ((select %s i) (select %s j)))))",
+			ln, arr, arr, ln, na, na, na, na))
+		if rel != "" {
+			if p := vc.eng.specs.Preds[rel]; p != nil && len(p.Params) == 2 {
+				// not less(x'[j], x'[i]) for i < j
+				e := &SQuant{Forall: true, Vars: []SQVar{{Name: "i_", Type: "int"}, {Name: "j_", Type: "int"}},
+					Body: &SBin{Op: "==>", L: &SBin{Op: "&&", L: &SBin{Op: "&&", L: &SBin{Op: "<=", L: &SInt{V: "0"}, R: &SIdent{Name: "i_"}}, R: &SBin{Op: "<", L: &SIdent{Name: "i_"}, R: &SIdent{Name: "j_"}}}, R: &SBin{Op: "<", L: &SIdent{Name: "j_"}, R: &SCall{Fun: "len", Args: []SExpr{&SIdent{Name: "sorted_"}}}}},
+						R: &SUn{Op: "!", X: &SCall{Fun: rel, Args: []SExpr{&SIndex{X: &SIdent{Name: "sorted_"}, I: &SIdent{Name: "j_"}}, &SIndex{X: &SIdent{Name: "sorted_"}, I: &SIdent{Name: "i_"}}}}}}}
+				t := vc.specBool(st, nil, e, nil, map[string]Val{"sorted_": nv})
+				vc.assume(st, t)
+			} else {
+				vc.unsupportedf(c.Pos(), "sort.Slice: unknown less-relation %q", rel)
+			}
+		} else {
+			vc.notes = append(vc.notes, vc.eng.pos(c.Pos())+": sort.Slice without a less-relation: result is an arbitrary permutation")
+		}
+		vc.assignSliceBase(st, c.Args[0], nv)
+		return nil, true
 	case "errors.As":
 		trusted()
 		// target is &x with x of pointer type T: result = errAs_T(err); x havocked (done by out-param handling)
